@@ -174,4 +174,44 @@ def save {α : Type} (Q : Quant α) (s : DocState) (c : Composite α) : Except E
       .ok { s with imageData := setData s.imageData.comp planes s.info.header,
                    info := { s.info with versionInfo := s.info.versionInfo.map fun _ => true } }
 
+/-! ### what the code counts as an edit of the structure
+
+`_updated_layers` is set by `GroupMixin._update_psd_record`, which the list-like mutators of
+a group / document call (`__setitem__`, `__delitem__`, `append`, `extend`, `insert`,
+`remove`, `pop`, `clear`) and, through them, `delete_layer`, `move_to_group`, `move_up`,
+`move_down`, `Group.group_layers`, `Group.new(parent=…)`. Attribute edits and read-only
+operations do not touch it, and nothing resets it. -/
+
+inductive Op where
+  | setitem | delitem | append | extend | insert | remove | pop | clear
+  | deleteLayer | moveToGroup | moveUp | moveDown | groupLayers | newGroupInParent
+  | rename | setVisible | setOpacity | setBlendMode | setOffset
+  | readTopil | readNumpy | readComposite | readForcedComposite | readIterate | readBbox | readSave
+  deriving DecidableEq, Repr, Inhabited
+
+def Op.structural : Op → Bool
+  | .setitem | .delitem | .append | .extend | .insert | .remove | .pop | .clear
+  | .deleteLayer | .moveToGroup | .moveUp | .moveDown | .groupLayers | .newGroupInParent => true
+  | _ => false
+
+def Op.name : Op → String
+  | .setitem => "setitem" | .delitem => "delitem" | .append => "append" | .extend => "extend"
+  | .insert => "insert" | .remove => "remove" | .pop => "pop" | .clear => "clear"
+  | .deleteLayer => "deleteLayer" | .moveToGroup => "moveToGroup" | .moveUp => "moveUp"
+  | .moveDown => "moveDown" | .groupLayers => "groupLayers" | .newGroupInParent => "newGroupInParent"
+  | .rename => "rename" | .setVisible => "setVisible" | .setOpacity => "setOpacity"
+  | .setBlendMode => "setBlendMode" | .setOffset => "setOffset"
+  | .readTopil => "readTopil" | .readNumpy => "readNumpy" | .readComposite => "readComposite"
+  | .readForcedComposite => "readForcedComposite" | .readIterate => "readIterate"
+  | .readBbox => "readBbox" | .readSave => "readSave"
+
+def Op.all : List Op :=
+  [.setitem, .delitem, .append, .extend, .insert, .remove, .pop, .clear, .deleteLayer, .moveToGroup,
+   .moveUp, .moveDown, .groupLayers, .newGroupInParent, .rename, .setVisible, .setOpacity,
+   .setBlendMode, .setOffset, .readTopil, .readNumpy, .readComposite, .readForcedComposite,
+   .readIterate, .readBbox, .readSave]
+
+/-- the flag after a history, starting from `d` -/
+def dirtyAfter (d : Bool) (ops : List Op) : Bool := d || ops.any Op.structural
+
 end PsdVerif.Merged
